@@ -65,6 +65,8 @@ const SEGMENTS: &[(&str, &str, &str)] = &[
     ("handlers-on-pending-promise-rejected", "const p = order({k: R1}); const hs = []; p.catch((e) => { hs.push(\"first:\" + e); }); p.then(() => { hs.push(\"no\"); }, (e) => { hs.push(\"second:\" + e); }); p.finally(() => { hs.push(\"fin\"); }).catch(() => {}); p.catch((e) => { hs.push(\"third\"); }); let got = \"\"; try { await p; } catch (e) { got = String(e); } return hs.join(\",\") + \"=\" + got;", "r"),
     ("then-chain-on-rejected-promise", "const p = order({k: R1}); const q = p.then((v) => v + 1).catch((e) => \"rec:\" + e).then((v) => v + \"!\"); let direct = \"\"; try { await p; } catch (e) { direct = String(e); } return (await q) + \"/\" + direct;", "r"),
     ("race-all-settled-mixed", "const a = order({k: P1}); const b = order({k: R1}); const r = await Promise.all([a.then((v) => \"ok\" + v), b.catch((e) => \"ko:\" + e)]); return r.join(\"+\");", "pr"),
+    ("three-level-constructors-suspend-before-super", "const seen = []; function cfg(n) { const r = order({k: K1}); seen.push(\"cfg\" + n); return r; } class A0 { constructor(v) { this.a = v; seen.push(\"A\"); } } class B0 extends A0 { constructor(v) { const c = cfg(1); super(v + c); this.b = c; seen.push(\"B\"); } } class C0 extends B0 { constructor(v) { super(v * 2); this.c = cfg(2); seen.push(\"C\"); } } const o = new C0(3); return seen.join(\",\") + \"|\" + o.a + \"|\" + o.b + \"|\" + o.c + \"|\" + (o instanceof A0);", "v"),
+    ("new-target-and-arguments-across-suspension", "function F(x) { const nt = new.target === F; const n0 = arguments.length; const r = order({k: K1}); this.v = x + r; return undefined; } function plain(a, b) { const r = order({k: K2}); return arguments.length + \":\" + (new.target === undefined) + \":\" + (a + b + r); } const o = new F(4, 5, 6); return o.v + \"|\" + plain(1, 2) + \"|\" + (o instanceof F);", "vv"),
     ("closure-counter-across-await", "let c = 0; const inc = () => ++c; inc(); const r = await order({k: K1}); inc(); return c * 10 + r;", "v"),
 ];
 
